@@ -114,6 +114,10 @@ def sym_env(tag):
     env = {}
     if fork_bool("%s_env_ds_set" % tag):
         env["SQLLINEAGE_DEFAULT_SCHEMA"] = SymStr.var("%s_env_ds" % tag, 2, "qzQ")
+    # the bool key of the step proof set to a non-default value through the environment (an override back to the built-in
+    # default must still win over it)
+    if fork_bool("%s_env_ts_set" % tag):
+        env["SQLLINEAGE_TSQL_NO_SEMICOLON"] = SymStr.const("true")
     return env
 
 
@@ -135,7 +139,12 @@ def sym_overrides(tag):
     ov = {}
     for k in STEP_KEYS:
         if fork_bool("%s_%s_has" % (tag, k)):
-            ov[k] = SymStr.var("%s_%s" % (tag, k), 2, "qzQ") if TYPES[k] is str else fork_bool("%s_%s_val" % (tag, k))
+            if TYPES[k] is str:
+                # the acting thread's stored text may also be the empty string, i.e. equal to the key's built-in default
+                empty = tag == "s0" and fork_bool("%s_%s_empty" % (tag, k))
+                ov[k] = SymStr.const("") if empty else SymStr.var("%s_%s" % (tag, k), 2, "qzQ")
+            else:
+                ov[k] = fork_bool("%s_%s_val" % (tag, k))
     return ov
 
 
